@@ -109,6 +109,12 @@ impl RustDocument {
     }
 
     pub fn switch_to_target_namespace(&mut self, namespace: &str) {
+        // a target namespace that was met before: its components keep going to its one module
+        if let Some(existing) = self.target_namespaces.iter().find(|ns| ns.namespace == namespace) {
+            self.current_target_namespace = Some(existing.clone());
+            return;
+        }
+
         // check if the namespace is already in the list
         if !self.target_namespaces.iter().any(|ns| ns.namespace == namespace) {
             // Check if we already have a reference to this namespace. If so, use that one, otherwise create a new one.
